@@ -230,9 +230,11 @@ def nice_constraints(sc):
         for b in dd[i + 1:]:
             # two different decimal texts differ in value, in the number of digits they are written with, or in canonicity
             cs.append(z3.Implies(z3.And(a != b, f_dec_ok(a), f_dec_ok(b)), z3.Or(f_dec_n(a) != f_dec_n(b), f_dec_scale(a) != f_dec_scale(b), f_dec_canon(a) != f_dec_canon(b))))
+    from .engine import dec_T
+    k_ = len(str(dec_T())) - 1
     for t in dd:
-        k_ = 10
-        cs.append(z3.Implies(f_dec_ok(t), z3.And(f_dec_scale(t) >= 0, f_dec_scale(t) <= 12)))
+        # the number of digits a text is written with is consistent with its value (so that a spelling exists)
+        cs.append(z3.Implies(f_dec_ok(t), z3.Or(*[z3.And(f_dec_scale(t) == j, f_dec_n(t) % (10 ** (k_ - j)) == 0) for j in range(k_ + 1)])))
     for t in byrole.get('semver', []):
         cs.append(z3.Implies(f_sv_ok(t), z3.And(f_sv_maj(t) >= 0, f_sv_min(t) >= 0, f_sv_pat(t) >= 0, f_sv_maj(t) < 1000, f_sv_min(t) < 1000, f_sv_pat(t) < 1000)))
     for role, ts in byrole.items():
